@@ -253,9 +253,17 @@ def sequence_leg(ck):
         return peers.ServerCfg(banner=b'SSH-2.0-Generic_1.0', kexinit={'kex': ['curve25519-sha256', GEX256, GEX1], 'key': ['ssh-ed25519'], 'enc': ['aes128-ctr'],
                                                                     'mac': ['hmac-sha2-256'], 'comp': ['none']},
                                hostkeys={'ssh-ed25519': peers.ed25519_blob()}, gex=None if refuse else {'style': style, 'moduli': moduli})
-    shapes = [('m1024', srv([1024, 2048]), 1024), ('refuses', srv([], refuse=True), None), ('m4096', srv([4096]), 4096), ('strict-none', srv([], style='strict'), None)]
+    shapes = [('m1024', srv([1024, 2048]), 1024), ('refuses', srv([], refuse=True), None), ('m4096', srv([4096]), 4096), ('strict-none', srv([], style='strict'), None),
+              ('m2048', srv([2048]), 2048), ('m3072', srv([3072, 4096]), 3072)]
+    # each server alone: the notes its group-exchange lines carry (size notes included) are the reference for every position in a list
+    refs = []
+    for name, cfg, _ in shapes:
+        rr = runner.run_one(multi.single_scenario(('server', cfg), 0, json_out=True))
+        if rr.get('harness_error') or rr.get('hang') or rr.get('exit') not in (0, 2, 3):
+            raise common.Machinery('single-target reference run failed for %s' % name)
+        refs.append(json.loads(rr['stdout']).get('kex'))
     scs = []
-    for order in ((0, 1), (0, 1, 2, 3), (2, 3, 0, 1), (1, 0), (3, 2, 1, 0)):
+    for order in ((0, 1), (0, 1, 2, 3), (2, 3, 0, 1), (1, 0), (3, 2, 1, 0), (4, 2), (4, 5, 2), (0, 4, 5), (5, 4, 0, 2)):
         for threads in (1, 2):
             sc, labels = multi.scenario([('server', shapes[i][1]) for i in order], threads, tuple(range(len(order))) if threads == 1 else None, json_out=True)
             scs.append((sc, labels, order, threads))
@@ -278,6 +286,10 @@ def sequence_leg(ck):
                                  'server %s audited as target %d of %r (%d thread(s)): %s shown with %s bits, measured on this server: %s'
                                  % (shapes[i][0], order.index(i) + 1, [shapes[j][0] for j in order], threads, ent['name'], ent.get('keysize'), want), replay)
                     bad = True
+            if not bad and docs.get(lab, {}).get('kex') != refs[i]:
+                ck.violation('gex-notes sequence', 'server %s audited as target %d of %r (%d thread(s)): its key-exchange lines (sizes and notes) differ from those of its single-target audit'
+                             % (shapes[i][0], order.index(i) + 1, [shapes[j][0] for j in order], threads), dict(replay, single_target_kex=refs[i], in_list_kex=docs.get(lab, {}).get('kex')))
+                bad = True
         if not bad:
             ck.cov['traces_validated_against_impl'] += 1
             ck.nontrivial(('sequence', order, threads))
